@@ -96,12 +96,17 @@ Chars(c, n) == IF n = 0 THEN "" ELSE c \o Chars(c, n - 1)
 \* a header block of about 17.5 KiB cut so that the HEADERS frame, or a CONTINUATION frame, or a padded HEADERS frame is full
 BigBlk == Block([i \in 1..4 |-> Fld(ReqPseudo[i], 1)] \o [i \in 1..58 |-> Fld(E("x-fill", Chars("m", 290)), 6)])
 BigResp == Block(<<Fld(E(":status", "200"), 1)>> \o [i \in 1..58 |-> Fld(E("x-fill", Chars("m", 290)), 6)])
-MaxFrameCases ==
-  {Vec(TRUE, Std, BigBlk, [pad |-> -1, prio |-> <<>>, cuts |-> <<n>>, endstream |-> TRUE], <<>>, "maxframe") : n \in {16383, 16384}}
-  \cup {Vec(TRUE, Std, BigBlk, [pad |-> -1, prio |-> <<>>, cuts |-> <<10, 10 + n>>, endstream |-> TRUE], <<>>, "maxframe") : n \in {16383, 16384}}
-  \cup {Vec(TRUE, Std, BigBlk, [pad |-> 5, prio |-> <<>>, cuts |-> <<16384 - 6>>, endstream |-> FALSE], <<>>, "maxframe")}
-  \cup {Vec(FALSE, <<>>, BigResp, [pad |-> -1, prio |-> <<>>, cuts |-> <<16384>>, endstream |-> TRUE], <<>>, "maxframe")}
-  \cup {Vec(TRUE, Std \o Frame(11, 0, 0, Rep(7, 16384)), FullBlk, Plain, <<>>, "maxframe")}          \* a full-size extension frame (ignored) first
+\* given by position (not as a set: normalising a set of records this large costs more than producing them)
+NMaxFrame == 8
+MaxFrameAt(j) ==
+  CASE j = 1 -> Vec(TRUE, Std, BigBlk, [pad |-> -1, prio |-> <<>>, cuts |-> <<16383>>, endstream |-> TRUE], <<>>, "maxframe")
+    [] j = 2 -> Vec(TRUE, Std, BigBlk, [pad |-> -1, prio |-> <<>>, cuts |-> <<16384>>, endstream |-> TRUE], <<>>, "maxframe")
+    [] j = 3 -> Vec(TRUE, Std, BigBlk, [pad |-> -1, prio |-> <<>>, cuts |-> <<10, 10 + 16383>>, endstream |-> TRUE], <<>>, "maxframe")
+    [] j = 4 -> Vec(TRUE, Std, BigBlk, [pad |-> -1, prio |-> <<>>, cuts |-> <<10, 10 + 16384>>, endstream |-> TRUE], <<>>, "maxframe")
+    [] j = 5 -> Vec(TRUE, Std, BigBlk, [pad |-> 5, prio |-> <<>>, cuts |-> <<16384 - 6>>, endstream |-> FALSE], <<>>, "maxframe")
+    [] j = 6 -> Vec(FALSE, <<>>, BigResp, [pad |-> -1, prio |-> <<>>, cuts |-> <<16384>>, endstream |-> TRUE], <<>>, "maxframe")
+    [] j = 7 -> Vec(TRUE, Std \o Frame(11, 0, 0, Rep(7, 16384)), FullBlk, Plain, <<>>, "maxframe")          \* a full-size extension frame (ignored) first
+    [] j = 8 -> Vec(FALSE, <<>>, BigResp, [pad |-> 7, prio |-> <<>>, cuts |-> <<16384 - 8>>, endstream |-> TRUE], <<>>, "maxframe")
 
 \* ---- resp
 RespCases ==
@@ -117,12 +122,13 @@ ValueCases ==
       v \in {"", "a", Chars("z", 126), Chars("q", 127), Chars("m", 300), "~!@#$%^&*()_+{}|:<>?`-=[];',./ ", "0123456789"}}
 
 \* TLC evaluates every constant definition at start-up, so all families are emitted by one run
-Cases == RepCases \cup FramingCases \cup PrefixCases \cup DynCases \cup DynSettingsCases \cup RespCases \cup ValueCases \cup MaxFrameCases
+Cases == RepCases \cup FramingCases \cup PrefixCases \cup DynCases \cup DynSettingsCases \cup RespCases \cup ValueCases
 CaseSeq == SetToSeq(Cases)
 Emit(i) == PrintT("REPLAY " \o ToJson([i |-> i] @@ CaseSeq[i]))
+EmitMax(j) == PrintT("REPLAY " \o ToJson([i |-> 100000 + j] @@ MaxFrameAt(j)))
 Init == shard \in 0..(Shards - 1) /\ phase = 0
 Next == phase = 0 /\ phase' = 1 /\ UNCHANGED shard
-Inv == phase = 1 => \A i \in 1..Len(CaseSeq) : (i % Shards = shard) => Emit(i)
+Inv == phase = 1 => (\A i \in 1..Len(CaseSeq) : (i % Shards = shard) => Emit(i)) /\ (\A j \in 1..NMaxFrame : ((j + 7) % Shards = shard) => EmitMax(j))
 \* laws of the encoder definition
 ASSUME HInt(10, 5, 0) = <<10>> /\ HInt(1337, 5, 0) = <<31, 154, 10>> /\ HInt(42, 8, 0) = <<42>>          \* RFC 7541 C.1
 ASSUME HStr("www.example.com", TRUE) = <<140, 241, 227, 194, 229, 242, 58, 107, 160, 171, 144, 244, 255>>   \* RFC 7541 C.4.1
